@@ -184,7 +184,10 @@ where
                     * (T::LN_2() / 2.0.as_() * bw * self.frequency / self.frequency.sin()).sinh()
             }
             Shape::Slope(s) => {
-                ((self.gain + T::one() / self.gain) * (T::one() / s - T::one()) + 2.0.as_()).sqrt()
+                // cookbook: A is the shelf amplitude sqrt(shelf gain), not the pass band gain
+                // (with the pass band gain the poles moved with `gain` and a negative gain gave NaN)
+                let a = self.shelf.sqrt();
+                ((a + T::one() / a) * (T::one() / s - T::one()) + 2.0.as_()).sqrt()
             }
         }
     }
